@@ -17,6 +17,7 @@ import ThriftVerif.Generated.C11Schema
   pca <hex>                          ParseCompactArguments + Pack
   exe <run> <decoded> <err> <feedok> <stderr> <nwarn> <ncontents>   executeOutcome
   gen <nlanguages> <nplugins>        plugin executions per Generate call
+  gat <env 0|1> <hex version>        the trailer/compression gate of Execute
   par <nlanguages> <nplugins> <hex -p args…>   PluginParameters seen by each execution
 -/
 namespace Driver.C11
@@ -246,6 +247,10 @@ def handleLine (last : Bytes) (line : String) : Bytes × String :=
     | some s => doPca s
     | none => "bad-op"
   | "exe" :: rest => doExe rest
+  | ["gat", env, hex] =>
+    match VL.hexDecode hex with
+    | some v => VL.boolStr (supportDataTrailer v && env == "1")
+    | none => "bad-op"
   | "par" :: nl :: _ :: args =>
     match nl.toNat?, args.mapM VL.hexDecode with
     | some nl, some args =>
